@@ -87,7 +87,11 @@ func runC01(c *harness.Ctx, idx int) {
 	}
 	msg := buf[:er.n]
 	dst := fresh(s)
+	// every other case decodes under the pool sanitizer: recycled scratch objects
+	// hold the worst a predecessor could have left, so a missing reset shows now
+	setPoison(idx%2 == 1)
 	dr := fDecode(msg, dst.Interface())
+	setPoison(false)
 	if dr.panicked() {
 		c.Violation("decode-panic", "C01/decode-panic/"+panicSig(dr)+"/"+sig, "DecodeObject panicked on frugal's own output: %v [%s] msg=%s", dr.pv, shortStack(dr.stack), hexClip(msg))
 		return
